@@ -83,6 +83,34 @@ def correspond(ctx, scale):
             dist['K_gt_batch'] += K > b * n * (1 if sep else heads)
             dist['heads'] += heads > 1
             dist['eval_frozen'] += mode != 'train'
+    # cosine codebooks: after ANY training step with the EMA update every code - revived ones included - has unit norm (the selection metric is the
+    # dot product with the stored code, which is the cosine only on the unit sphere).  Two routes hand `replace` samples that are not unit vectors:
+    # the public multi-head expire_codes_ (vectors are normalised before the head split) and batches of norm below the l2norm eps
+    for ki in range(8 if not ctx.thorough else 40):
+        heads_c = [1, 2, 2, 3][ki % 4]
+        sep_c = ki % 4 == 2
+        manual = ki % 2 == 1
+        kw_c = dict(dim=2 * heads_c, codebook_dim=2, heads=heads_c, separate_codebook_per_head=sep_c, codebook_size=8, use_cosine_sim=True, threshold_ema_dead_code=2, decay=0.5,
+                    manual_ema_update=manual)
+        vq_c = VectorQuantize(**kw_c)
+        vq_c.train()
+        try:
+            for t in range(3):
+                xc = torch.randn(2, 3, 2 * heads_c) * [1.0, 1e-8, 3.0][(t + ki) % 3]
+                with torch.no_grad():
+                    vq_c(xc)
+                    if manual:
+                        vq_c._codebook.update_ema()
+                        vq_c.expire_codes_(xc)
+                evaluations += 1
+                dist['cosine_unit_norm_steps'] = dist.get('cosine_unit_norm_steps', 0) + 1
+                nrm = vq_c._codebook.embed.norm(dim=-1)
+                if not torch.allclose(nrm, torch.ones_like(nrm), atol=1e-3):
+                    failures.append({'key': f'cosine:codes-not-unit-norm:manual={manual}:heads={heads_c}', 'what': f'VectorQuantize({kw_c}) step {t} (input scale {[1.0, 1e-8, 3.0][(t + ki) % 3]}): after the update some codes are not unit vectors '
+                                     f'(norms from {float(nrm.min()):.3g} to {float(nrm.max()):.3g})', 'case': dict(kw=kw_c, step=t)})
+                    break
+        except Exception as ex:
+            failures.append({'key': f'cosine-unit-norm:exception:{type(ex).__name__}', 'what': f'VectorQuantize({kw_c}): {ex!r}', 'case': dict(kw=kw_c)})
     # ResidualVQ: per-layer expiry from that layer's residual; shared codebook: replacement drawn from all layers' residuals
     for ci in range((12 if not ctx.thorough else 100) * scale):
         shared = rng.random() < 0.6
